@@ -263,12 +263,27 @@ def run(ctx, report: Report) -> None:
                     if isinstance(n, ast.If) and "'pseudo_dir'" in unparse(n.test) and any(
                             isinstance(st, ast.Assign) and unparse(st) == 'is_html = True' for st in n.body):
                         how = 'sets the HTML-only marker'
+            if how is None:
+                # third mechanism: the matching function of the pseudo-class itself refuses documents that are not HTML - observed by
+                # running the pseudo-class through the whole pipeline on two XML trees (plain, and with XHTML-namespaced elements)
+                from ..e2e import api as _api, make_doc as _make_doc
+                XH_ = 'http://www.w3.org/1999/xhtml'
+                text_ = {':dir': ':dir(ltr)'}.get(nm, nm)
+                got_ = []
+                for spec_ in ([('r', {}, [('e', {}, ['x']), ('input', {'type': 'checkbox', 'checked': ''}, [])])],
+                              [('feed', {}, [('div', {'_ns': XH_}, [('p', {'_ns': XH_}, ['x']), ('a', {'_ns': XH_, 'href': 'u'}, [])])])]):
+                    d_, o_, _l = _make_doc(spec_, 'xml')
+                    for sel_ in (text_, f'*{text_}', f':is({text_})', f'* > {text_}'):
+                        st_, r_ = _api(ctx, 'select', sel_, d_)
+                        got_.append((st_, len(r_) if st_ == 'ok' else r_))
+                if all(g == ('ok', 0) for g in got_):
+                    how = 'its matching function refuses documents that are not HTML (observed through the whole pipeline on two XML trees)'
             r3.instance({'html_only_pseudo_class': nm, 'gated_by': how}, key=nm)
             r3.obligation(how is not None)
             if how is None:
                 r3.violation(f'html-only {nm} not gated', pmod.where(pc),
                              f'{nm} is documented as HTML-only but its definition is neither compiled with FLG_HTML nor sets '
-                             f'the HTML-only marker: it can match elements of a plain XML document')
+                             f'the HTML-only marker, and it selects elements of an XML document that is not XHTML')
     else:
         r3.note('docs/src/markdown/selectors/pseudo-classes.md not present: documentation clause skipped')
 
